@@ -77,10 +77,17 @@ pub fn run_frame_case(c: &Value) -> Value {
             "is_empty" => json!([frame.is_empty()]),
             "has_binary" => json!([frame.has_binary()]),
             "iter" => {
-                let mut it = frame.fields();
+                let mut it = Some(frame.fields());
                 let mut out = vec![];
                 for m in moves_of(&o["moves"]) {
-                    let x = if m == "f" { it.next() } else { it.next_back() };
+                    let Some(cur) = it.as_mut() else { break };
+                    let x = match m.as_str() {
+                        "f" => cur.next(),
+                        "b" => cur.next_back(),
+                        "n1" => cur.nth(1),
+                        "n2" => cur.nth(2),
+                        _ => it.take().unwrap().last(), // "l": by value, consumes the iterator
+                    };
                     out.push(match x {
                         None => json!([]),
                         Some((k, v)) => json!([[k.as_bytes(), v.as_bytes()]]),
@@ -97,12 +104,19 @@ pub fn run_frame_case(c: &Value) -> Value {
     let via_ref: Vec<Value> = (&frame).into_iter().map(|(k, v)| json!([k.as_bytes(), v.as_bytes()])).collect();
     // finally consume the frame with the owning iterator
     let mut owned = vec![];
-    let mut it = frame.into_iter();
+    let mut it = Some(frame.into_iter());
     for m in moves_of(&c["owned"]) {
+        let Some(cur) = it.as_mut() else { break };
         match m.as_str() {
-            "t" => owned.push(json!(["bin", match it.take_binary() { None => json!([]), Some(b) => json!([b.to_vec()]) }])),
+            "t" => owned.push(json!(["bin", match cur.take_binary() { None => json!([]), Some(b) => json!([b.to_vec()]) }])),
             mv => {
-                let x = if mv == "f" { it.next() } else { it.next_back() };
+                let x = match mv {
+                    "f" => cur.next(),
+                    "b" => cur.next_back(),
+                    "n1" => cur.nth(1),
+                    "n2" => cur.nth(2),
+                    _ => it.take().unwrap().last(), // "l": by value, consumes the iterator
+                };
                 owned.push(json!(["item", match x { None => json!([]), Some((k, v)) => json!([[k.as_bytes(), v.as_bytes()]]) }]));
             }
         }
